@@ -147,13 +147,12 @@ def judge(pr0, snap, out, sig):
     k3 = k[:3]
     fresh = lambda: copy.deepcopy(pr0)
 
-    ncall = [0]
+    # an argument that has its documented default value (normalize=True, extrapolate=True, closure='HNC') is left out in every
+    # second case (decided by the data of the case, so that a replay does the same): both spellings of the default must behave alike
+    strip_defaults = int(np.asarray(snap['rho'], dtype=float).sum() * 1e6) % 2 == 0
 
     def call(f, *a, **kw):
-        # an argument that has its documented default value (normalize=True, extrapolate=True, closure='HNC') is left out on every
-        # second call: both spellings of the default must behave alike
-        ncall[0] += 1
-        if ncall[0] % 2:
+        if strip_defaults:
             kw = {k_: v for k_, v in kw.items() if (k_, v) not in (('normalize', True), ('extrapolate', True), ('closure', 'HNC'))}
         with warnings.catch_warnings():
             warnings.simplefilter('ignore')
